@@ -59,7 +59,7 @@ def features(sel):
     return "+".join(f) or "plain"
 
 
-BUDGET_S = 2
+BUDGET_S = 2        # CPU seconds of the worker (ITIMER_VIRTUAL): independent of the load of the machine
 
 
 class _RunsAway(BaseException):
@@ -71,13 +71,13 @@ def _alarm(signum, frame):
 
 
 def guarded(rule, schema, doc, variables):
-    signal.setitimer(signal.ITIMER_REAL, BUDGET_S)
+    signal.setitimer(signal.ITIMER_VIRTUAL, BUDGET_S)
     try:
         return list(rule(schema, doc, variables))
     except _RunsAway:
         raise RuntimeError("measuring one small operation takes longer than %d s" % BUDGET_S)
     finally:
-        signal.setitimer(signal.ITIMER_REAL, 0)
+        signal.setitimer(signal.ITIMER_VIRTUAL, 0)
 
 
 def doc_size(doc):
@@ -109,7 +109,7 @@ def _worker(behs):
     schema = build_schema(SCHEMA_SDL)
     out = {}
     n = 0
-    signal.signal(signal.SIGALRM, _alarm)
+    signal.signal(signal.SIGVTALRM, _alarm)
     try:        # a rule that doubles a list on every step exhausts the machine within the time budget: cap the worker's address space
         import resource
         soft, hard = resource.getrlimit(resource.RLIMIT_AS)
@@ -148,7 +148,7 @@ def _worker(behs):
                 wit = {"text": text, "variables": variables, "limit": limit, "operation_name": filt, "expected_flagged": exp,
                        "spec_depth": b["depth"], "via": via}
                 try:
-                    signal.setitimer(signal.ITIMER_REAL, BUDGET_S)       # a measurement takes microseconds: seconds mean it runs away
+                    signal.setitimer(signal.ITIMER_VIRTUAL, BUDGET_S)       # a measurement takes microseconds: seconds mean it runs away
                     rule = rules.get((limit, filt))
                     if rule is None:
                         rule = rules[(limit, filt)] = MaxDepthValidationRule(limit, operation_name=filt)
@@ -163,14 +163,14 @@ def _worker(behs):
                     else:
                         errs = list(validate_ast(schema, doc, validators=[rule], variables=variables).errors)
                     got = sorted(e.nodes[0].name.value for e in errs)
-                    signal.setitimer(signal.ITIMER_REAL, 0)
+                    signal.setitimer(signal.ITIMER_VIRTUAL, 0)
                 except _RunsAway:
                     out.setdefault("depth/does-not-terminate/%s" % feat, ["measuring one small operation takes longer than %d s" % BUDGET_S, wit])
                     modified = True
                     runaway += 1
                     break
                 except Exception as e:
-                    signal.setitimer(signal.ITIMER_REAL, 0)
+                    signal.setitimer(signal.ITIMER_VIRTUAL, 0)
                     out.setdefault("depth/raises/%s/%s" % (type(e).__name__, feat), ["depth rule raises", dict(wit, error=repr(e))])
                     continue
                 if got != exp:
